@@ -8,6 +8,12 @@ Property (properties.jsonl, C17), clause by clause, and what this oracle demands
  R  "A form containing a structural error (...) is refused: conversion raises the library's own error type ...
       and returns no XForm": every catalogued breaking mutation applied to a valid base form, at every site where
       it applies, must be refused.                                    key  C17:accepted:<kind>
+      "Every site" includes what surrounds the broken row: context_cases() puts the same broken row (a parameter name
+      that the XLSForm reference gives to another question type or to none, a bad parameter value, an unknown type,
+      a missing list, ...) alone, before, after, between, nested with, and after two or three valid rows of every
+      other parameter-bearing kind (selects from file with value=/label=, randomized selects, range, text rows=,
+      image, audio, geo, audit, ...).  Nothing a converter remembers from earlier rows may make it acceptable.
+      For an unknown parameter the message must name the parameter or say "parameter".  key C17:unidentified:<kind>
  L  "... with a message identifying the problem, citing the spreadsheet row when the error belongs to a row":
       when the mutation breaks exactly one row (the row number is computed here from the abstract workbook:
       data row i of a sheet is spreadsheet row i + 2, blank rows count), the message must contain `[row : N]`
@@ -495,9 +501,307 @@ def fuzz_cases(tier: str, seed: int) -> list[Case]:
     return out
 
 
+# ----------------------------------------------------------------------------- context independence (clause R and L)
+# "A form containing a structural error ... is refused": the quantifier is over every valid form x every breaking
+# mutation x every site.  The families above put each broken row into ONE fixed base form, so a given broken cell is only
+# ever preceded by the same few plain rows.  This family varies what stands AROUND the broken row: valid rows of kind A
+# (every question kind whose `parameters` cell is interpreted, each carrying its own legitimate parameters, plus selects
+# with choice_filter / or_other / external lists) placed before, after, around, twice, nested, and in pairs, then a broken
+# row of kind B.  Whatever a converter remembers from earlier rows of the sheet, the broken row must still be refused.
+#
+# Expectation source: the XLSForm reference table of the `parameters` column (which names belong to which question
+# type).  A name that belongs to another type (or to none) is an "unknown parameter" for the row's type.  Pairs the
+# reference leaves open (capture-/warning-accuracy on geoshape/geotrace) are not demanded.
+
+PARAM_DOC = {
+    "select_one l": {"randomize", "seed"},
+    "select_multiple l2": {"randomize", "seed"},
+    "rank l": {"randomize", "seed"},
+    "select_one_external ext": {"randomize", "seed"},
+    "select_one_from_file f.csv": {"randomize", "seed", "value", "label"},
+    "select_multiple_from_file h.xml": {"randomize", "seed", "value", "label"},
+    "select_one_from_file g.geojson": {"randomize", "seed", "value", "label"},
+    "range": {"start", "end", "step"},
+    "text": {"rows"},
+    "image": {"max-pixels", "app"},
+    "audio": {"quality"},
+    "background-audio": {"quality"},
+    "geopoint": {"capture-accuracy", "warning-accuracy", "allow-mock-accuracy"},
+    "geoshape": {"allow-mock-accuracy"},
+    "geotrace": {"allow-mock-accuracy"},
+    "audit": {"location-priority", "location-min-interval", "location-max-age", "track-changes", "track-changes-reasons",
+              "identify-user"},
+}
+PARAM_UNDEMANDED = {(t, p) for t in ("geoshape", "geotrace") for p in ("capture-accuracy", "warning-accuracy")}
+# a well-formed value for every documented name (valid on the name's home type)
+PARAM_VALUE = {
+    "randomize": "true", "seed": "3", "value": "code", "label": "text", "start": "1", "end": "9", "step": "2", "rows": "3",
+    "max-pixels": "640", "app": "com.example.app", "quality": "low", "capture-accuracy": "5", "warning-accuracy": "10",
+    "allow-mock-accuracy": "true", "location-priority": "balanced", "location-min-interval": "60",
+    "location-max-age": "120", "track-changes": "true", "track-changes-reasons": "on-form-edit", "identify-user": "true",
+}
+PARAM_NONSENSE = ["foo", "valu", "labels", "randomise", "parameters"]
+# a legitimate cell for each type (used to combine a foreign name with valid ones)
+PARAM_OWN_CELL = {
+    "select_one l": "randomize=true seed=3", "select_multiple l2": "randomize=true", "rank l": "randomize=false",
+    "select_one_external ext": "randomize=true", "select_one_from_file f.csv": "value=code label=text",
+    "select_multiple_from_file h.xml": "value=code", "select_one_from_file g.geojson": "value=id label=title randomize=true",
+    "range": "start=1 end=9 step=2", "text": "rows=3", "image": "max-pixels=640", "audio": "quality=low",
+    "background-audio": "quality=voice-only", "geopoint": "capture-accuracy=5 warning-accuracy=10 allow-mock-accuracy=true",
+    "geoshape": "allow-mock-accuracy=true", "geotrace": "allow-mock-accuracy=false",
+    "audit": "track-changes=true identify-user=true",
+}
+# cells whose NAME is right for the type but whose VALUE is not (one clear example per documented value domain)
+PARAM_BAD_VALUE = {
+    "select_one l": ["randomize=maybe", "seed=3", "randomize=true seed=abc"],
+    "select_multiple l2": ["randomize=maybe"],
+    "rank l": ["randomize=1"],
+    "select_one_from_file f.csv": ["randomize=maybe", "value=a b"],
+    "range": ["start=a end=5", "step=x"],
+    "text": ["rows=x"],
+    "image": ["max-pixels=abc"],
+    "audio": ["quality=loud"],
+    "background-audio": ["quality=loud"],
+    "geopoint": ["capture-accuracy=x", "allow-mock-accuracy=maybe"],
+    "geoshape": ["allow-mock-accuracy=maybe"],
+    "audit": ["track-changes=maybe", "identify-user=maybe"],
+}
+CTX_EXT = {"external_choices": (["list_name", "name", "label", "state"], [["ext", "z", "Z", "s1"], ["ext", "w", "W", "s2"]])}
+
+
+def _typed_row(t, nm, params=None):
+    """A row of question type `t` (a key of PARAM_DOC) named `nm`, with what the type needs to be valid."""
+    if t == "audit":
+        return _row("audit", None, None, parameters=params)
+    r = _row(t, nm, None if t == "background-audio" else nm.upper(), parameters=params)
+    if t.startswith("select_one_external"):
+        r["choice_filter"] = "state=${a}"
+    return r
+
+
+def _ctx_typed(t, params):
+    return lambda sfx: [_typed_row(t, f"k{sfx}", params)]
+
+
+# valid rows of kind A: name -> (home type for "related" parameter names or None, builder(suffix) -> rows)
+CONTEXTS = {
+    "from-file-csv": ("select_one_from_file f.csv", _ctx_typed("select_one_from_file f.csv", None)),
+    "from-file-csv-value-label": ("select_one_from_file f.csv", _ctx_typed("select_one_from_file f.csv", "value=code label=text")),
+    "from-file-xml-multiple-value": ("select_multiple_from_file h.xml", _ctx_typed("select_multiple_from_file h.xml", "value=code")),
+    "from-file-geojson": ("select_one_from_file g.geojson", _ctx_typed("select_one_from_file g.geojson", "value=id label=title")),
+    "from-file-randomize-label": ("select_one_from_file f.csv", _ctx_typed("select_one_from_file f.csv", "randomize=true seed=3 label=text")),
+    "select-one-randomize": ("select_one l", _ctx_typed("select_one l", "randomize=true seed=3")),
+    "select-multiple-randomize": ("select_multiple l2", _ctx_typed("select_multiple l2", "randomize=true")),
+    "rank-randomize": ("rank l", _ctx_typed("rank l", "randomize=false")),
+    "select-external": ("select_one_external ext", _ctx_typed("select_one_external ext", "randomize=true")),
+    "select-choice-filter": (None, lambda s: [_row("select_one l", f"k{s}", "K", choice_filter="name=${a}")]),
+    "select-or-other": (None, lambda s: [_row("select_one l or_other", f"k{s}", "K")]),
+    "range": ("range", _ctx_typed("range", "start=1 end=9 step=2")),
+    "text-rows": ("text", _ctx_typed("text", "rows=3")),
+    "image": ("image", _ctx_typed("image", "max-pixels=640")),
+    "audio": ("audio", _ctx_typed("audio", "quality=low")),
+    "background-audio": ("background-audio", _ctx_typed("background-audio", "quality=voice-only")),
+    "geopoint": ("geopoint", _ctx_typed("geopoint", "capture-accuracy=5 warning-accuracy=10 allow-mock-accuracy=true")),
+    "geoshape": ("geoshape", _ctx_typed("geoshape", "allow-mock-accuracy=true")),
+    "audit-track": ("audit", _ctx_typed("audit", "track-changes=true identify-user=true")),
+    "audit-location": ("audit", _ctx_typed("audit", "location-priority=balanced location-min-interval=60 location-max-age=120")),
+}
+CTX_ONCE = {"audit-track", "audit-location"}          # the form may hold one audit row only
+CTX_TOP_ONLY = {"audit-track", "audit-location", "background-audio"}   # metadata rows: kept out of groups / repeats
+
+PLACEMENTS = ["after", "after-far", "before", "context-in-group", "broken-in-repeat", "both-in-group", "context-twice",
+              "between", "context-in-repeat-broken-in-group"]
+
+
+def _place(placement, ctx_name, b):
+    """(rows, index of b) for the valid rows of context `ctx_name` and the row `b` in the given arrangement, or None."""
+    mk = CONTEXTS[ctx_name][1]
+    c1 = mk("1")
+    a, pad1, pad2 = _row("text", "a", "A"), _row("integer", "p1", "P1"), _row("note", "p2", "P2 ${a}")
+    if placement in ("context-twice", "between") and ctx_name in CTX_ONCE:
+        return None
+    if placement in ("context-in-group", "both-in-group", "context-in-repeat-broken-in-group") and ctx_name in CTX_TOP_ONLY:
+        return None
+    if placement in ("broken-in-repeat", "both-in-group", "context-in-repeat-broken-in-group") and b["type"] in ("audit", "background-audio"):
+        return None
+    if ctx_name in CTX_ONCE and b["type"] == "audit":
+        return None
+    if placement == "after":
+        rows = [a, *c1, b]
+    elif placement == "after-far":
+        rows = [a, *c1, pad1, None, pad2, b]
+    elif placement == "before":
+        rows = [a, b, *c1]
+    elif placement == "context-in-group":
+        rows = [a, _row("begin group", "g", "G"), *c1, _row("end group"), b]
+    elif placement == "broken-in-repeat":
+        rows = [a, *c1, _row("begin repeat", "r", "R"), pad1, b, _row("end repeat")]
+    elif placement == "both-in-group":
+        rows = [a, _row("begin group", "g", "G"), *c1, pad1, b, _row("end group")]
+    elif placement == "context-twice":
+        rows = [a, *c1, *mk("2"), *mk("3"), b]
+    elif placement == "between":
+        rows = [a, *c1, b, *mk("2")]
+    elif placement == "context-in-repeat-broken-in-group":
+        rows = [a, _row("begin repeat", "r", "R"), *c1, _row("end repeat"), _row("begin group", "g", "G"), pad1, b, _row("end group")]
+    else:
+        raise ValueError(placement)
+    return rows, next(i for i, r in enumerate(rows) if r is b)
+
+
+def _ctx_wb(rows):
+    ext = any(r and str(r.get("type") or "").startswith("select_one_external") for r in rows)
+    return _wb(rows, CHOICES, extra=CTX_EXT if ext else None)
+
+
+def _ctx_case(kind, tag, rows, site, mentions=None):
+    c = Case(f"C17-ctx-{kind}:{tag}", wb=_ctx_wb(rows), origin="C17", tags={"mutation", "context", kind})
+    c.expect = {"kind": kind, "rows": {site + 2}, "mentions": mentions}
+    return c
+
+
+def _foreign_cells(t, names):
+    """Broken `parameters` cells for type t: each name (not documented for t) alone, with a well-formed value."""
+    out = []
+    for p in names:
+        if p in PARAM_DOC[t] or (t, p) in PARAM_UNDEMANDED:
+            continue
+        out.append((p, f"{p}={PARAM_VALUE.get(p, '1')}"))
+    return out
+
+
+ALL_PARAM_NAMES = sorted(PARAM_VALUE)
+# broken rows of other catalogued kinds (kind, tag, row): each is broken on its own, whatever surrounds it
+OTHER_BROKEN = [
+    ("unknown-type", "textt", lambda: _row("textt", "z", "Z")),
+    ("unknown-type", "select_one-without-list", lambda: _row("select_one", "z", "Z")),
+    ("unknown-type", "select_one_from_file-without-file", lambda: _row("select_one_from_file", "z", "Z")),
+    ("missing-list", "select_one", lambda: _row("select_one nolist", "z", "Z")),
+    ("missing-list", "select_multiple", lambda: _row("select_multiple nolist", "z", "Z")),
+    ("missing-list", "rank", lambda: _row("rank nolist", "z", "Z")),
+    ("invalid-list-file", "select_one_from_file f.txt", lambda: _row("select_one_from_file f.txt", "z", "Z")),
+    ("invalid-list-file", "select_multiple_from_file f", lambda: _row("select_multiple_from_file f", "z", "Z")),
+    ("missing-calculation", "calculate", lambda: _row("calculate", "z", None)),
+    ("invalid-name", "1z", lambda: _row("text", "1z", "Z")),
+    ("invalid-name", "select z z", lambda: _row("select_one l", "z z", "Z")),
+    ("missing-name", "select", lambda: _row("select_one l", None, "Z")),
+    ("unknown-ref", "relevant", lambda: _row("text", "z", "Z", relevant="${nope} = 1")),
+    ("unknown-ref", "choice_filter", lambda: _row("select_one l", "z", "Z", choice_filter="name = ${nope}")),
+    ("or-other-with-choice-filter", "select_one", lambda: _row("select_one l or_other", "z", "Z", choice_filter="name = ${a}")),
+]
+
+
+def context_cases(tier: str, seed: int) -> list[Case]:
+    thorough = tier == "thorough"
+    out = []
+    types = list(PARAM_DOC)
+    ctxs = list(CONTEXTS)
+
+    # (0) the surroundings themselves are valid: every context in every arrangement with a harmless row as `b`
+    for cn in ctxs:
+        for pl in PLACEMENTS:
+            b = _row("text", "z", "Z")
+            placed = _place(pl, cn, b)
+            if placed is None:
+                continue
+            c = Case(f"C17-ctx-base:{cn}|{pl}", wb=_ctx_wb(placed[0]), origin="C17", tags={"base", "context"})
+            c.expect = {"kind": "base", "accept": True}
+            out.append(c)
+    for t in types:       # and every target type with its own legitimate cell is valid after every context
+        for cn in ctxs:
+            if not thorough and (types.index(t) + ctxs.index(cn)) % 3:
+                continue
+            placed = _place("after", cn, _typed_row(t, "z", PARAM_OWN_CELL[t]))
+            if placed is None:
+                continue
+            c = Case(f"C17-ctx-base:{cn}|after|{t}|own-parameters", wb=_ctx_wb(placed[0]), origin="C17", tags={"base", "context"})
+            c.expect = {"kind": "base", "accept": True}
+            out.append(c)
+
+    # (1) the broken rows on their own (no context): the reference point of the family
+    broken_alone = []
+    for t in types:
+        for p, cell in _foreign_cells(t, ALL_PARAM_NAMES + PARAM_NONSENSE):
+            broken_alone.append(("bad-parameters", f"{t}|{cell}", (lambda t=t, cell=cell: _typed_row(t, "z", cell)), [p, "parameter"]))
+        for cell in PARAM_BAD_VALUE.get(t, []):
+            broken_alone.append(("bad-parameters", f"{t}|{cell}", (lambda t=t, cell=cell: _typed_row(t, "z", cell)), None))
+    for kind, tag, mk in OTHER_BROKEN:
+        broken_alone.append((kind, tag, mk, None))
+    for kind, tag, mk, mentions in broken_alone:
+        b = mk()
+        rows = [_row("text", "a", "A"), b]
+        out.append(_ctx_case(kind, f"alone|{tag}", rows, 1, mentions))
+
+    # (2) valid row(s) of kind A, then a broken row of kind B
+    n = 0
+    for ci, cn in enumerate(ctxs):
+        home = CONTEXTS[cn][0]
+        related = sorted(PARAM_DOC[home]) if home else []
+        for ti, t in enumerate(types):
+            # names that are legitimate on the context's rows but not on this row, then every other foreign name
+            cells = _foreign_cells(t, related)
+            rest = [x for x in _foreign_cells(t, ALL_PARAM_NAMES + PARAM_NONSENSE) if x not in cells]
+            if thorough:
+                cells = cells + rest
+            else:
+                cells = cells + [rest[(ci + ti) % len(rest)]]
+            # a foreign name next to the type's own legitimate names, in both orders
+            combos = []
+            for p, cell in cells[: (None if thorough else 1)]:
+                combos.append((p, f"{PARAM_OWN_CELL[t]} {cell}"))
+                combos.append((p, f"{cell} {PARAM_OWN_CELL[t]}"))
+            if thorough:
+                combos += [(p, cell.upper()) for p, cell in cells[:2]]      # names are case-insensitive
+            bad_values = [(None, c) for c in PARAM_BAD_VALUE.get(t, [])]
+            for k, (p, cell) in enumerate(cells + combos + bad_values):
+                if thorough:
+                    pls = PLACEMENTS
+                elif k < len(cells):
+                    pls = ["after", PLACEMENTS[1 + (n % (len(PLACEMENTS) - 1))]]
+                else:
+                    pls = [PLACEMENTS[n % len(PLACEMENTS)]]
+                n += 1
+                for pl in pls:
+                    b = _typed_row(t, "z", cell)
+                    placed = _place(pl, cn, b)
+                    if placed is None:
+                        continue
+                    out.append(_ctx_case("bad-parameters", f"{cn}|{pl}|{t}|{cell}", placed[0], placed[1],
+                                         [p, "parameter"] if p else None))
+        for oi, (kind, tag, mk) in enumerate(OTHER_BROKEN):
+            for pi, pl in enumerate(PLACEMENTS):
+                if not thorough and (ci + oi + pi) % 3:
+                    continue
+                b = mk()
+                placed = _place(pl, cn, b)
+                if placed is None:
+                    continue
+                out.append(_ctx_case(kind, f"{cn}|{pl}|{tag}", placed[0], placed[1]))
+
+    # (3) two different kinds of valid rows, then the broken row (names legitimate on either of them)
+    rnd = random.Random(seed * 104729 + 171)
+    pairs = [(c1, c2) for c1 in ctxs for c2 in ctxs if c1 != c2 and not (c1 in CTX_ONCE and c2 in CTX_ONCE)]
+    if not thorough:
+        pairs = rnd.sample(pairs, 60)
+    for c1, c2 in pairs:
+        names = sorted({p for c in (c1, c2) if CONTEXTS[c][0] for p in PARAM_DOC[CONTEXTS[c][0]]})
+        tsel = types if thorough else rnd.sample(types, 4)
+        for t in tsel:
+            if t == "audit" and (c1 in CTX_ONCE or c2 in CTX_ONCE):
+                continue
+            cells = _foreign_cells(t, names) or _foreign_cells(t, PARAM_NONSENSE[:1])
+            if not thorough:
+                cells = cells[:2]
+            for p, cell in cells:
+                b = _typed_row(t, "z", cell)
+                rows = [_row("text", "a", "A"), *CONTEXTS[c1][1]("1"), *CONTEXTS[c2][1]("2"), b]
+                out.append(_ctx_case("bad-parameters", f"{c1}+{c2}|after|{t}|{cell}", rows, len(rows) - 1, [p, "parameter"]))
+    return out
+
+
 def cases(tier: str, seed: int) -> list[Case]:
     thorough = tier == "thorough"
-    return mutation_cases(thorough) + vocabulary_cases(thorough) + fuzz_cases(tier, seed)
+    return mutation_cases(thorough) + vocabulary_cases(thorough) + context_cases(tier, seed) + fuzz_cases(tier, seed)
 
 
 # ----------------------------------------------------------------------------- check
@@ -523,6 +827,9 @@ def check(case, res, ctx):
     msg = str(res.error)
     if not msg.strip():
         return [{"key": f"C17:empty-message:{kind}", "what": f"refused with an empty message ({case.name})"}]
+    mentions = exp.get("mentions")
+    if mentions and not any(m.lower() in msg.lower() for m in mentions):
+        return [{"key": f"C17:unidentified:{kind}", "what": f"refused, but the message names neither of {mentions} ({case.name}): {msg[:200]!r}"}]
     want = exp.get("rows")
     if want:
         cited = {int(n) for n in RE_ROW.findall(msg)}
